@@ -1409,8 +1409,9 @@ def _exc_ancestors(index, cls_name, module):
 
 
 def swallowed_error_rule(index, rep, rid, modules):
-    """A handler that swallows (its body is pass / continue) must not be able to catch one of the library's own error
-    classes raised inside the block it guards - directly or in a callee: the documented refusal would vanish."""
+    """A handler that swallows (its body is pass / continue) and names a BROADER class must not be able to catch one of
+    the library's own error classes raised inside the block it guards - directly or in a callee: the documented refusal
+    would vanish.  (A handler that names exactly the class raised is deliberate control flow.)"""
     n = 0
     for m in modules:
         for f in index.functions_in_module(m):
@@ -1445,7 +1446,7 @@ def swallowed_error_rule(index, rep, rid, modules):
                         if not any(k.name == nm for k in index.classes.values()):
                             continue        # not one of the library's own classes
                         anc = _exc_ancestors(index, nm, None)
-                        hit = caught & anc
+                        hit = (caught & anc) - {nm}       # a handler that names the very class raised is deliberate control flow
                         rep.check(not hit, rid, f.qualname, "`except %s: pass` swallows %s" % ("/".join(sorted(caught)), nm), fn_where(f, h), "",
                                   "%s guards a block with `except %s` whose body only passes, and that block can raise the library's own %s (in %s), which is a %s: the error a caller is documented to get - e.g. the refusal to delete the seed node - is silently dropped and the operation carries on as if nothing had happened (a filter that rejects every leaf then never terminates)" % (f.qualname, "/".join(sorted(caught)), nm, ctx.qualname, "/".join(sorted(hit))))
     return n
